@@ -94,7 +94,8 @@ CLAIMS = {
     },
     "C12": {
         "text": ("Definitional oracles in spec/PCLib.tla: Markov equivalence class by enumeration of all DAGs, CPDAG = edges compelled in every "
-                 "member, consistent extensions of a PDAG. TLC proves for every DAG on 4 nodes that ANY maximal application order of Meek rules "
+                 "member, consistent extensions of a PDAG. TLC proves for every DAG on 4 nodes that the level-wise skeleton search as coded (orig and "
+                 "snapshot adjacency policies, any edge-visiting order, any separating set found) is sound and complete (MC_PCSkel), that ANY maximal application order of Meek rules "
                  "R1-R3 (with their non-adjacency side conditions) to skeleton+v-structures is sound at every step and ends in the CPDAG, and "
                  "that the CPDAG's extensions are exactly the class. Every one of the 543 ground truths is replayed on PC (orig/stable/parallel; "
                  "callable d-separation oracle answering from TLC's table, and independence_match on the full pairwise list; 4/8 hash seeds): "
